@@ -565,6 +565,21 @@ Proof.
   exists radii. split; [reflexivity|]. cbn zeta. inversion H. now rewrite sasa_fix_frame_fresh.
 Qed.
 
+(* the two-stage evaluation used by the correspondence is the same function *)
+Lemma shrake_rupley_two_stage : forall c sched, covers (length (c_frames c)) sched ->
+  shrake_rupley true sched c = shrake_rupley_post c (shrake_rupley_pre c).
+Proof.
+  intros c sched Hc. unfold shrake_rupley, shrake_rupley_post, shrake_rupley_pre.
+  destruct (match c_mode c with AtomMode => false | ResidueMode => _ end); [reflexivity|].
+  destruct (match c_sel c with Some _ => _ | None => false end); [reflexivity|].
+  destruct (radii_of _ _ _ _) as [radii|]; [|reflexivity].
+  destruct (existsb _ _); [reflexivity|].
+  rewrite sasa_fix_frame_fresh by assumption. rewrite map_map. reflexivity.
+Qed.
+
+Lemma shrake_rupley_pre_mode_irrelevant : forall md c, shrake_rupley_pre (set_mode md c) = shrake_rupley_pre c.
+Proof. intros. reflexivity. Qed.
+
 (* ------------------------------------------------------------------ radii: table, change_radii, probe *)
 Lemma lookup_override : forall e change tbl,
   lookup_radius e (change ++ tbl) =
